@@ -152,6 +152,25 @@ func C03(c *core.Ctx) {
 		"evaluations = script steps; distinct_nontrivial = steps that were accepted session requests")
 
 	// GEN: TLC enumerates the scripts (spec/BessScript.tla), the harness replays them into the real agent
+	// design level: the modification handler as coded with Go's slice semantics (SessionImpl.tla, complete graph): a refused
+	// request changes neither the stored rules nor the datapath, and the datapath is the image of the stored rules; the code
+	// before repairs 3fa6008 / eb21414 and the seeded change "clipped slices" as negative controls, where TLC must find it
+	if c.ReplayDir == "" {
+		if r, err := c.RunTLC(core.TLCRun{Module: "SessionImpl", Cfg: "MCSessionImpl_fixed.cfg", Workers: 2, HeapMB: 2048, Timeout: 5 * time.Minute, Label: "mc"}); err != nil || !r.OK() {
+			c.Inconclusive("model check of SessionImpl did not pass (a counterexample is a candidate history to replay, not a verdict)")
+		} else {
+			c.AddTLC("mc", r)
+		}
+
+		for _, nc := range []string{"MCSessionImpl_nocopy.cfg", "MCSessionImpl_latecheck.cfg", "MCSessionImpl_clipped.cfg"} {
+			if r, err := c.RunTLC(core.TLCRun{Module: "SessionImpl", Cfg: nc, Workers: 1, HeapMB: 1024, Timeout: 5 * time.Minute, Label: "mc-old"}); err != nil || r.Violated != "RejectedChangesNothing" {
+				c.Inconclusive("negative control: %s no longer violates RejectedChangesNothing", nc)
+			} else {
+				c.AddCount("negative_controls_found", 1)
+			}
+		}
+	}
+
 	scopeShards, genCfg := 8, "MCBessScript.cfg"
 	if c.Thorough() {
 		scopeShards, genCfg = 14, "MCBessScript5.cfg"
